@@ -312,6 +312,8 @@ TARGETED = [
     'fence = { PUSH("ab") ~ &(PUSH(" "*) ~ "ab") ~ PEEK* ~ DROP }\nlk = ${ PUSH("a") ~ &(POP ~ PUSH("b")) ~ PEEK ~ "b"? }\nlook = { &PUSH("a") ~ "a" ~ PEEK_ALL ~ "b" }\nlookA = @{ &PUSH("a") ~ "a" ~ PEEK_ALL ~ "b" }',
     # rules whose expression may or may not end with EOI; full parse with trailing blanks / comments
     'WHITESPACE = _{ " " | "\\t" }\nCOMMENT = _{ "#" ~ (!NEWLINE ~ ANY)* }\nword = @{ ASCII_ALPHA+ }\nline = { word+ ~ (NEWLINE | EOI) }\nsil = _{ word ~ (";" ~ EOI | word) }\nna = !{ word+ }\nfile = { SOI ~ word* ~ EOI }',
+    # user rules named like Unicode properties / built-ins (they shadow them) and referenced
+    'NUMBER = @{ ASCII_DIGIT+ ~ ("." ~ ASCII_DIGIT+)? }\nLETTER = { \'a\'..\'c\' | "_" }\nname = @{ LETTER ~ (LETTER | ASCII_DIGIT)* }\nsum = { (NUMBER | name) ~ ("+" ~ (NUMBER | name))* }',
     # zero-width tokens under an optional
     'call = { name ~ "(" ~ args? ~ ")" }\nname = { "f" }\nargs = { (arg ~ ("," ~ arg)*)? }\narg = { "1" }\ntail = { "x"* }\nm = { "y" ~ tail? }\nend = { "a" ~ EOI? }',
     # insensitive / ranges / multi-byte
